@@ -12,6 +12,12 @@ def run(prop, tier, seed, wd, t0):
             stages.append(what)
         except ImportError:
             pass
+    try:
+        import literals
+        jobs += [j for j in literals.jobs(tier, prop) if 'insertion' in j.name]
+        stages.append('insertion indices: checked and used index agree (macro.cpp strToInt / strToIntSilent)')
+    except ImportError:
+        pass
     def extra(out):
         return {'stages_covered': stages}
     return fw.run_e1(prop, tier, seed, wd, t0, jobs, fw.COMMON_ASSUMPTIONS + [
